@@ -76,6 +76,34 @@ CHECKS = {
         note=TRUST + "clap's own parsing and the operating system's delivery of stdout/stderr are trusted; actual process output is not observed.",
         technique="static analysis: control dependence against pre-expansion clap attributes, origin trees of printed values, constant propagation of the value parser",
     ),
+    "C01": dict(
+        category="other",
+        text="Necessary conditions only: finality is transferred per state when the automaton is rebuilt and every inserted test case marks its last "
+             "state final; every regex metacharacter (oracle: regex_syntax::is_meta_character of the locked version) is escaped per occurrence in literals "
+             "and in bracket classes. Breaking any of them makes some test case unmatched or the pattern invalid. That minimisation, elimination and "
+             "printing preserve membership is not decided.",
+        design_ref="DESIGN.md §4 C01",
+        note=TRUST + "One genuine defect is recorded as a known finding (empty string loses finality: FIN-1) because its repair contradicts three pinned tests.",
+        technique="static analysis: loop/dominator rules on the automaton code, constant-table coverage against the dependency's metacharacter switch",
+    ),
+    "C05": dict(
+        category="other",
+        text="Notation clauses decided by constant propagation over the quantifier printer on all abstract paths ({min,max} iff min<max, {min} iff min>1, group "
+             "only around quantified multi-code-point units, decision not taken on the printed form), the label guard of the minimiser, and trie-edge "
+             "immutability during insertion (today violated: known finding). Language equality with/without the option is not decided.",
+        design_ref="DESIGN.md §4 C05",
+        note=TRUST + "TRI-1 is a genuine defect recorded as a known finding (no small repair).",
+        technique="static analysis: path-splitting constant propagation with string templates, call-graph reachability, dominating-edge rule",
+    ),
+    "C11": dict(
+        category="other",
+        text="Constant and structural clauses: the set of code points sent to the surrogate helper is exactly U+10000..=U+10FFFF (read from the range constant), the "
+             "per-character dispatch is ASCII/identity, astral+surrogates/helper (\\u{hex} per UTF-16 unit), else char::escape_unicode; every literal is escaped on "
+             "every path before printing with the Literal's own flags.",
+        design_ref="DESIGN.md §4 C11",
+        note=TRUST + "Pure-ASCII output for all inputs, re-decodability and language equality are not decided.",
+        technique="static analysis: constant propagation of the dispatch, interval reading of range constants, must-pass-through on the literal printer",
+    ),
 }
 
 NOT_APPLICABLE = {
